@@ -21,6 +21,8 @@ import DSymVerif.Proofs.DSymGenCanon
 import DSymVerif.Proofs.DSymGenSum
 import DSymVerif.Proofs.DSymGenIso
 import DSymVerif.Proofs.DSymGenGood
+import DSymVerif.Proofs.DSymGenCensus
+import DSymVerif.Proofs.DSymGenOrient
 import DSymVerif.Proofs.DSymGenBox
 import DSymVerif.Proofs.Delaney2dChi
 import DSymVerif.Spec.C07
@@ -639,6 +641,42 @@ theorem one_symbol_per_isomorphism_class (ds : DSetData) (g : Geom) (c : Ctx) (h
 example : ∃ c, mkCtx ex1 .all = .ok c ∧ InDomain ex1 ∧ ¬ c.baseCurv < 0 := by
   refine ⟨_, rfl, ex1_inDomain, ?_⟩
   decide +kernel
+
+/-- **the private `is_weakly_oriented` is the trait's**: on every connected complete D-set the
+    generator's own breadth-first 2-colouring does not panic, terminates within the model's fuel
+    `size + 2`, and returns what `DSet::is_weakly_oriented()` returns (⇔ the chamber graph without
+    loops is bipartite, C02). -/
+theorem private_is_weakly_oriented (ds : DSetData) (hd : InDomain ds) :
+    isWeaklyOriented ds = .ok ds.viewSimple.isWeaklyOriented :=
+  isWeaklyOriented_private hd.valid hd.connected hd.nonempty
+
+example : isWeaklyOriented ex1 = .ok true := by decide +kernel
+
+/-- **the private `orbifold_symbol` collects the crate's census**: its cone list (a 2 per
+    two-chamber (0,2)-orbit with s0 = s2 and no fixed chamber, v per cycle orbit with v > 1) and
+    its corner list (a 2 per chamber fixed by s0 and s2, v per chain orbit with v > 1) are, as
+    multisets, the cone and corner census `conesOf / cornersOf (typesOf y)` of the emitted symbol
+    `y` — the census that C08's theorems (`trace_boundary_corners_exact`, `symbolExact_sound`)
+    attach to `delaney2d::orbifold_symbol`; and the string it returns is
+    sorted-cones ++ ("*" iff some chamber is fixed) ++ sorted-corners ++ ("x" iff not weakly
+    oriented). -/
+theorem private_census_is_crate_census (ds : DSetData) (g : Geom) (c : Ctx) (h : mkCtx ds g = .ok c)
+    (hd : InDomain ds) (vs : List Nat) (hl : vs.length = c.count) :
+    ((points02 c.dset).1 ++ (List.range c.count).filterMap (coneAt c vs)).Perm
+      (D2.conesOf (D2.typesOf (emittedSym c vs))) ∧
+    ((points02 c.dset).2 ++ (List.range c.count).filterMap (cornerAt c vs)).Perm
+      (D2.cornersOf (D2.typesOf (emittedSym c vs))) ∧
+    orbifoldSymbol c vs = .ok
+      (degreeListAsString (sortDesc ((points02 c.dset).1 ++ (List.range c.count).filterMap (coneAt c vs))) ++
+       (if c.dset.viewSimple.isLoopless then "" else "*") ++
+       degreeListAsString (sortDesc ((points02 c.dset).2 ++ (List.range c.count).filterMap (cornerAt c vs))) ++
+       (if c.dset.viewSimple.isWeaklyOriented then "" else "x")) := by
+  obtain ⟨hdd, _⟩ := mkCtx_fields h
+  obtain ⟨p1, p2⟩ := private_census h hd.valid hd.dim hd.far hl
+  refine ⟨p1, p2, ?_⟩
+  unfold orbifoldSymbol
+  rw [pointsVs_eq (mkCtx_wf h) hl _ (fun i hi => List.mem_range.mp hi), hdd,
+    isWeaklyOriented_private hd.valid hd.connected hd.nonempty]
 
 /-! ### open (not theorems): the statements, for the record -/
 
